@@ -25,9 +25,18 @@ CHECKS = {
              "what": "linear::function_t value/gradient vs mean loss + l1 mean|W| + l2/2 mean W^2"},
             {"name": "gboost", "timing_dependent": True, "harness": "c09_objectives", "args": ["--stage", "gboost"], "share": 0.3, "crash_is_violation": True,
              "what": "gboost bias / scale / grads objectives vs their definitions"},
-            {"name": "sched", "harness": "c09_sched", "args_quick": ["--budget", "2", "--maxW", "3"], "args_thorough": ["--budget", "3", "--maxW", "3", "--split", "frontier"],
+            {"name": "linear-tsan", "harness": "c09_objectives", "variant": "tsan", "args": ["--stage", "linear", "--small", "1"],
+             "share": 0.15, "crash_is_violation": True,
+             "what": "the linear objective on a thin multi-thread, multi-chunk sub-lattice under ThreadSanitizer (race oracle)"},
+            {"name": "gboost-tsan", "harness": "c09_objectives", "variant": "tsan", "args": ["--stage", "gboost", "--small", "1"],
+             "share": 0.15, "crash_is_violation": True,
+             "what": "the gboost objectives on the same sub-lattice under ThreadSanitizer (race oracle)"},
+            {"name": "sched", "harness": "c09_sched", "args_quick": ["--budget", "2", "--maxW", "3"], "args_thorough": ["--budget", "2", "--maxW", "3", "--split", "frontier"],
              "crash_is_violation": True, "share": 0.3,
              "what": "one objective evaluation with W workers under the scheduler: every schedule gives the one-thread value"},
+            {"name": "sched-deep", "harness": "c09_sched", "tiers": ["thorough"], "args": ["--budget", "3", "--maxW", "2", "--split", "frontier"],
+             "crash_is_violation": True, "share": 0.3,
+             "what": "the same with 2 workers and up to 3 preemptions (3 workers x 3 preemptions did not complete within the deadline and is not claimed)"},
         ],
     },
 }
